@@ -42,6 +42,12 @@ type Case struct {
 	Encrypted   bool     `json:"encrypted,omitempty"`
 	Methods     []string `json:"methods,omitempty"`             // per confirmation: "" = bearer | hok | sv
 	AllowIDP    bool     `json:"allow_idp_initiated,omitempty"` // addressing must hold whether or not IdP-initiated login is allowed
+	// Trust: the SP's trust configuration ("" = meta1; every configuration trusts the signing key used here).
+	// Warm: the same ServiceProvider value has processed an ordinary valid login before this message.
+	Trust string `json:"trust,omitempty"`
+	Warm  bool   `json:"warm,omitempty"`
+	// Noise: options of the SP that concern only what it sends (see spkit.Noise); the verdict must not depend on them
+	Noise uint64 `json:"noise,omitempty"`
 }
 
 func methodURI(m string) string {
@@ -164,7 +170,11 @@ func check(c Case) pbt.Result {
 	if err != nil {
 		return pbt.Result{Err: "harness: " + err.Error()}
 	}
-	sp := spkit.NewSP(spkit.Config{Trust: "meta1", NoEntityID: c.NoEntityID, AllowIDPInit: c.AllowIDP})
+	sp := spkit.NewSP(spkit.Config{Trust: c.Trust, NoEntityID: c.NoEntityID, AllowIDPInit: c.AllowIDP})
+	spkit.Noise(sp, c.Noise)
+	if c.Warm {
+		spkit.WarmUp(sp, fix.Epoch)
+	}
 	switch c.Validator {
 	case "accept":
 		sp.ValidateAudienceRestriction = func(*saml.Assertion) error { return nil }
@@ -197,6 +207,15 @@ func check(c Case) pbt.Result {
 
 	// ---- reference model
 	res := pbt.Result{Classes: []string{"entry:" + c.Entry, "status:" + c.Status}}
+	if c.Trust != "" {
+		res.Classes = append(res.Classes, "sp-trust:"+c.Trust)
+	}
+	if c.Noise != 0 {
+		res.Classes = append(res.Classes, "sp-unrelated-options-set")
+	}
+	if c.Warm {
+		res.Classes = append(res.Classes, "sp-served-a-login-before")
+	}
 	var defects []string // reasons for must-reject
 	dontCare := false
 	nonCorrect, near := 0, 0
@@ -364,6 +383,13 @@ func gen(t *rapid.T) Case {
 		Entry:       rapid.SampledFrom([]string{"xml", "post", "artifact"}).Draw(t, "entry"),
 		Encrypted:   rapid.IntRange(0, 4).Draw(t, "enc") == 0,
 		AllowIDP:    rapid.IntRange(0, 3).Draw(t, "allowidp") == 0,
+	}
+	if rapid.IntRange(0, 2).Draw(t, "othertrust") == 0 {
+		c.Trust = rapid.SampledFrom(spkit.Trusts).Draw(t, "trust")
+	}
+	c.Warm = rapid.IntRange(0, 3).Draw(t, "warm") == 0
+	if rapid.IntRange(0, 2).Draw(t, "noise?") == 0 {
+		c.Noise = rapid.Uint64Range(1, 255).Draw(t, "noise")
 	}
 	if c.ReceivedAt != "acs" && c.Destination.Class == "correct" {
 		c.DestIsAt = rapid.Bool().Draw(t, "destIsAt")
